@@ -488,6 +488,17 @@ func genC11(r *rand.Rand, tier string, st *Stats) []Case {
 		g.proc("at", "p", "return 1 <= "+quote(lit), map[string]string{"cell": "number,LESSEQ,string"})
 		g.proc("at", "t", "return "+quote(lit)+" + ( 0 - 12 )", map[string]string{"cell": "string,PLUS,number"})
 	}
+	// string -> boolean is "non-empty", whatever the text says: strings that LOOK like a truth value, a zero, a blank,
+	// as the right operand of every operator whose left operand is a boolean (and as an `if` condition through `and`)
+	for _, lit := range []string{"false", "true", "False", "FALSE", "0", "00", " ", "no", "nil", "null", "f", "-"} {
+		for _, op := range []string{"and", "or", "==", "!=", "<", ">", "<=", ">="} {
+			for _, lhs := range []string{"true", "false", "( 1 < 2 )"} {
+				g.proc("sb", "p", "return "+lhs+" "+op+" "+quote(lit), map[string]string{"cell": "bool," + op + ",string"})
+			}
+		}
+		g.proc("sb", "t", "set flag to '' + "+quote(lit)+" if true and flag then return 'T' end return 'F'", map[string]string{"cell": "vars"})
+		g.proc("sb", "t", "set flag to '' + ( 1 > 2 ) if true != flag then return 'ne' end return 'eq'", map[string]string{"cell": "vars"})
+	}
 	// variables the checker does not know: `matchNumber` (a number at run time), unset names
 	for _, e := range []string{"matchNumber + 1", "matchNumber + '1'", "matchNumber == 1", "matchNumber * 2", "head matchNumber",
 		"nosuch + 'x'", "nosuch == ''", "matchLength + 1", "match + match", "matchLength * matchLength"} {
